@@ -384,7 +384,10 @@ func (g *G) extraStmt(d int) []*Node {
 		attr := compAttrs[g.intn(len(compAttrs), "cAttr")]
 		save := g.O.SideFx
 		g.O.SideFx = false
+		saveLoop := g.loopDepth
+		g.loopDepth = 0 // a computed body is a code block of its own
 		body := g.compBody(Bin([]string{"+", "*", "-"}[g.intn(3, "cOp")], g.orDefault(&Node{K: "this", S: attr}), g.intExpr(d-1)))
+		g.loopDepth = saveLoop
 		g.O.SideFx = save
 		g.Env.Put(&VarInfo{Name: name, T: TComp, Ret: TInt, Len: -1})
 		out := []*Node{&Node{K: "setc", S: name, Kids: []*Node{body}}}
